@@ -1,0 +1,14 @@
+//! Commit pipeline under failing commits: a way to keep one commit inside `apply`
+//! (it blocks on the active-memtable lock) while other commits run.
+
+use crate::Tree;
+
+/// Runs `f` while holding the WRITE lock of the active memtable: a commit that has
+/// logged its batch blocks at the start of `apply` (it takes the read lock) and keeps
+/// its queue slot unapplied until `f` returns.
+pub fn with_active_memtable_locked<T>(tree: &Tree, f: impl FnOnce() -> T) -> T {
+	let guard = tree.core.inner.active_memtable.write().unwrap();
+	let r = f();
+	drop(guard);
+	r
+}
